@@ -31,6 +31,17 @@ pub assume_specification<'a> [std::str::from_utf8_unchecked] (v: &'a [u8]) -> (r
 #[verifier::external_body]
 pub struct ExParseIntError(std::num::ParseIntError);
 /// R9 wrapper for `str::parse::<usize>()` (decimal parsing itself is trusted, no contract needed by any property)
+/// R9 wrappers for str predicates that have no Verus model; their results are unconstrained (no property needs them)
+pub trait VxStrPred {
+    fn vx_starts_with_char(&self, c: char) -> (r: bool);
+    fn vx_contains_str(&self, p: &str) -> (r: bool);
+    fn vx_ends_with_char(&self, c: char) -> (r: bool);
+}
+impl VxStrPred for str {
+    #[verifier::external_body] fn vx_starts_with_char(&self, c: char) -> (r: bool) { self.starts_with(c) }
+    #[verifier::external_body] fn vx_contains_str(&self, p: &str) -> (r: bool) { self.contains(p) }
+    #[verifier::external_body] fn vx_ends_with_char(&self, c: char) -> (r: bool) { self.ends_with(c) }
+}
 pub trait VxParse { fn vx_parse_usize(&self) -> (r: Result<usize, std::num::ParseIntError>); }
 impl VxParse for String {
     #[verifier::external_body] fn vx_parse_usize(&self) -> (r: Result<usize, std::num::ParseIntError>) { self.parse::<usize>() }
